@@ -6,16 +6,16 @@ from ..refs import c05_tankgen as G
 
 ID = 'C06'
 LEVEL = 'exploration'
-CASES = {'quick': 480, 'thorough': 8000}
+CASES = {'quick': 400, 'thorough': 6000}
 CASE_TIMEOUT = 30
 TECHNIQUE = ('property-based testing (Hypothesis): generated tank networks simulated with WNTRSimulator (report step '
              'ALL); every pair of consecutive reported rows is checked against an own Euler/volume reference '
              '(conservation oracle written from the statement, volume curve interpolated by own code)')
-RULE = ('Generated case (refs/c05_tankgen.py) = reservoir feeding 1-4 junctions through a head pump (1- or 3-point '
-        'curve, lift 6-25 m) or a long pipe, 1-3 tanks (cylindrical or 1-4 segment volume curve starting at 0 or '
+RULE = ('Generated case (refs/c05_tankgen.py) = reservoir feeding 1-4 junctions (1 case in 8: the first tank directly) '
+        'through a head pump (1- or 3-point curve, lift 6-25 m) or a long pipe, 1-3 tanks (cylindrical or 1-4 segment volume curve starting at 0 or '
         'min_level and ending at max_level or 1 m above it; init level anywhere incl. exactly min/max; area from a '
         'drawn traverse time of 1-8 h) each with 1-3 links (pipe either direction, CV pipe in/out, pump in/out, '
-        'initially closed pipe), demand patterns with multipliers 0.05-3.6, 0-3 tank-level/pressure controls; '
+        'initially closed pipe; 1 case in 4 with >= 2 tanks also a tank-to-tank pipe), demand patterns with multipliers 0.05-3.6, 0-3 tank-level/pressure controls; '
         'duration 12-72 h, hydraulic step 900-7200 s (<= 100 steps), DD (15 % PDD). Oracle per tank and per pair '
         'of consecutive rows. Non-trivial = converged run in which some tank reaches a level limit (within 1 mm) or '
         'a partial (off-grid) step is reported; distinct = SHA-1 of the case.')
@@ -27,10 +27,19 @@ ASSUMPTIONS = ['only runs WNTR reports as converged are judged (not converged / 
 TOLERANCES = {'volume_identity': '1e-7*|q*dt| + 1e-9*A m3 (float noise of head-elevation at heads <= 100 m is 1e-14 m)',
               'init_level_abs': 1e-9,
               'limit_band': '2 s * |net inflow of the previous row| / A + 1.5e-4 m (statement: about two seconds of flow; '
-                            'Htol = 1.524e-4 m is the reopening hysteresis of the tank controls)',
+                            'Htol = 1.524e-4 m is the reopening hysteresis of the tank controls); a level that already lay '
+                            'beyond the limit in the previous row and has not moved further out was judged when it got there',
               'no_discharge_at_min / no_fill_at_max': 'Qtol = 2.83168e-6 m3/s (WNTRSimulator._Qtol), premise '
                                                       'level <= min + 1e-12 / level >= max - 1e-12',
               }
+
+LEVEL_TEXT = ('exploration: the volume identity, the start level, the limit band and the no-discharge/no-fill rule were '
+              'evaluated for every tank and every pair of consecutive reported rows of the converged WNTRSimulator runs on '
+              'generated networks; no violation outside the listed findings means none was found in the explored sample')
+LEVEL_NOTE = ('trusted base: the reference in this module (V = A*level or own linear interpolation of the spec curve, '
+              'Euler step with the reported net inflow), refs/c05_tankgen.py, vlib.spec.build_wn/run_wntr; observation '
+              'through results.node[pressure|demand] with report_timestep ALL. Not covered: tank leaks (C08), mixing '
+              'models, runs that do not converge')
 
 FEAT = {'nctl': (0, 3), 'tanks': (1, 3), 'vol_curve': 0.45, 'pdd': 0.15}
 
@@ -47,6 +56,26 @@ def summarize(case):
             'tanks': case['tanks'], 'curves': {k: v for k, v in case['curves'].items() if v['type'] == 'VOLUME'},
             'links': [[l['name'], l['a'], l['b']] for k in ('pipes', 'pumps', 'valves') for l in case[k]],
             'controls': case['controls']}
+
+
+def _via(case, run, tk, k, sign):
+    """root-cause qualifier of a forbidden net flow (sign -1: out of the tank, +1: into it) in row k: is it carried by a
+    link whose other end is a tank as well?"""
+    tn = set(t['name'] for t in case['tanks'])
+    tt = 0.0
+    for grp in ('pipes', 'pumps'):
+        for l in case[grp]:
+            if tk['name'] in (l['a'], l['b']) and l['a'] in tn and l['b'] in tn:
+                f = run.link['flowrate'][l['name']][k]
+                into = f if l['b'] == tk['name'] else -f
+                if sign * into > G.QTOL:
+                    tt += into
+    return abs(tt) > G.QTOL
+
+
+def _limit_bucket(what, kind, via):
+    # one root cause, whatever the side and the tank kind: the limit of one tank is overruled through a tank-to-tank link
+    return 'tank_to_tank_link/limit_not_enforced' if via else '%s/%s' % (what, kind)
 
 
 def tank_checks(case, run, tags):
@@ -75,7 +104,7 @@ def tank_checks(case, run, tags):
                             tags.append('beyond_%s' % side)
                         # a level that already lay beyond the limit and has not moved further was judged when it got there
                         if not over <= band and not over <= sgn * (lv[k - 1] - lim) + 1e-12:
-                            return ('limit_overshoot/%s/%s' % (side, kind),
+                            return (_limit_bucket('limit_overshoot/' + side, kind, _via(case, run, tk, k - 1, sgn)),
                                     'tank %s t=%d: level %.9g is %.6g beyond %s_level %.6g, allowed 2 s*|q_prev|/A+1.5e-4 = '
                                     '%.6g (q_prev=%.6g at t=%d, A=%.4g)' % (name, times[k], lv[k], over, side, lim, band,
                                                                            q[k - 1], times[k - 1], a_eff))
@@ -84,11 +113,11 @@ def tank_checks(case, run, tags):
             if lv[k] >= tk['max'] - 1e-3:
                 tags.append('reached_max')
             if lv[k] <= tk['min'] + 1e-12 and not q[k] >= -G.QTOL:
-                return ('discharge_at_min/%s' % kind,
+                return (_limit_bucket('discharge_at_min', kind, _via(case, run, tk, k, -1.0)),
                         'tank %s t=%d: level %.9g <= min_level %.6g but net inflow %.6g < -Qtol' % (name, times[k], lv[k],
                                                                                                     tk['min'], q[k]))
             if lv[k] >= tk['max'] - 1e-12 and not q[k] <= G.QTOL:
-                return ('fill_at_max/%s' % kind,
+                return (_limit_bucket('fill_at_max', kind, _via(case, run, tk, k, 1.0)),
                         'tank %s t=%d: level %.9g >= max_level %.6g but net inflow %.6g > Qtol' % (name, times[k], lv[k],
                                                                                                   tk['max'], q[k]))
             # ---- volume identity
